@@ -1,4 +1,5 @@
 import os
+import collections
 import hashlib
 import json
 
@@ -94,6 +95,8 @@ class DumperBase(DataStreamProcessor):
             )
             ret = self.row_counter(resource, ret)
             yield ret
+            # whoever reads the rows may have stopped early: the dump holds every row all the same
+            collections.deque(ret, maxlen=0)
 
         # Calculate datapackage hash
         if self.datapackage_hash:
